@@ -61,13 +61,19 @@ Theorem c13_location_is_position : forall s sp,
 Proof. exact location_is_position_lemma. Qed.
 Print Assumptions c13_location_is_position.
 
-(* `composed` panics exactly when the span, converted to characters, is past the end of the source --
-   assert!(e.location.is_some()) -- or reversed (ariadne's Label::new asserts start <= end) *)
+(* `composed` panics exactly when the span, converted to characters, is reversed (ariadne's Label::new asserts
+   start <= end); assert!(e.location.is_some()) cannot fire since 0301a92: the conversion is total and never exceeds the
+   character length *)
 Theorem c13_composed_panics_iff : forall s sp,
-  composed_one [(sp_src sp, s)] (Some sp) = Panic <->
-  (let sp' := span_to_chars s sp in length s < sp_start sp' \/ length s < sp_end sp' \/ sp_end sp' < sp_start sp').
+  composed_one [(sp_src sp, s)] (Some sp) = Panic <-> chars_before s (sp_end sp) < chars_before s (sp_start sp).
 Proof. exact composed_one_panics_iff. Qed.
 Print Assumptions c13_composed_panics_iff.
+
+(* FULL STRENGTH since 0301a92: no span whose start is not after its end makes `composed` panic -- whatever its unit, on or
+   off character boundaries, inside or past the text, in whatever tree *)
+Theorem c13_composed_total : forall tree sp, sp_start sp <= sp_end sp -> composed_one tree (Some sp) <> Panic.
+Proof. exact composed_one_total. Qed.
+Print Assumptions c13_composed_total.
 
 (* a span that `composed` leaves on a message is the character conversion of the span it had, names a file of the tree,
    has start <= end <= the character length of that file and comes with the position of its two ends (the file clause is
@@ -171,13 +177,6 @@ Theorem c13_byte_span_is_char_span_iff : forall s bs be cs ce,
   ((bs = cs /\ be = ce) <-> ascii_before_byte s be = true).
 Proof. exact byte_span_is_char_span_iff. Qed.
 Print Assumptions c13_byte_span_is_char_span_iff.
-
-(* `composed` never panics for an ordered span inside the character length, whatever its unit *)
-Theorem c13_composed_total_in_bounds : forall s sp,
-  sp_start sp <= sp_end sp -> sp_start sp <= length s -> sp_end sp <= length s ->
-  composed_one [(sp_src sp, s)] (Some sp) <> Panic.
-Proof. exact composed_one_total_in_bounds. Qed.
-Print Assumptions c13_composed_total_in_bounds.
 
 (* ---- interpolation rebasing (`span + 2`) ----
    Full statement (FALSE: triple-quoted f/s-strings): forall tok q i_s i_e, interp_rebase tok i_s i_e = interp_actual tok q i_s i_e *)
@@ -300,6 +299,11 @@ Example c13_ex_u16_wrap : (u16 (65535 + 1), u16 (65536 + 1), u16 (0 + 1))%N = (0
 Proof. vm_compute. reflexivity. Qed.
 (* the former F9 witness: e-acute then `+`, token `+` at bytes 2..3 = characters 1..2 *)
 Example c13_ex_nonascii : parser_error_reported [233; 43]%N [(0, 2); (2, 3)] 1 2 = Ret (Some (Span 1 2 1), Some ((0, 1), (0, 2))).
+Proof. vm_compute. reflexivity. Qed.
+(* an offset inside a character is the end of that character, one past the text is the end of the text *)
+Example c13_ex_off_boundary : composed_one [(1, [233; 43]%N)] (Some (Span 1 9 1)) = Ret (Some (Span 1 2 1), Some ((0, 1), (0, 2))).
+Proof. vm_compute. reflexivity. Qed.
+Example c13_ex_reversed : composed_one [(1, [97; 98]%N)] (Some (Span 1 0 1)) = Panic.
 Proof. vm_compute. reflexivity. Qed.
 Example c13_ex_partial_hyp : ascii_before_byte [102;114;111;109;32;233]%N 5 = true.
 Proof. vm_compute. reflexivity. Qed.
